@@ -783,11 +783,19 @@ class World:
             self.stats["calls_on_shared_instance"] += 1
         mod = inst.mod
         inst.inflight += 1
+        # torch promotes an INTEGER input by the default dtype in force: for such
+        # a call the user's set_default_dtype() in another thread would be a race
+        # in the user's own program, like flipping it under a constructor
+        int_in = not (x.is_floating_point() or x.is_complex())
+        if int_in:
+            self.dtype_sensitive += 1
         try:
             status, val = cl.guarded(
                 lambda: call_with_mode(torch, lambda: mod(x), op.get("grad_mode", "ambient")))
         finally:
             inst.inflight -= 1
+            if int_in:
+                self.dtype_sensitive -= 1
         self._finish(cl, rec, status, val)
         # I1: arguments untouched (also after a faulted call)
         if storage_bytes(base) != before:
